@@ -1,5 +1,327 @@
+/-
+  C08 — Visitors reach every node exactly once, in document order, with the true context
+  (`parents`, `path`), calling the handler the MRO designates; the dispatch cache never changes
+  behaviour; the default `TreeTransformer` is a deep copy through `clone_item`.
+  Property theorems (helper lemmas: Luqum/Lemmas/Visit.lean).
+-/
 import Luqum.Model.Visitor
+import Luqum.Lemmas.Visit
+import Luqum.Props.C09
+
 namespace Luqum.Props.C08
-open Luqum
-theorem copy_term (k : TermK) (v : Str) (l : Lay) : (Tree.term k v l).copy = .term k v l.noName := rfl
+open Luqum Luqum.Lemmas.Visit
+
+/-! ### 1. events of a visit = document order, decorated with the dispatched handler -/
+
+/-- a dispatch cache is consistent when every entry is what uncached dispatch gives
+(`∀ (cls, h) ∈ c, h = dispatch H cls`); the empty cache of a fresh visitor is -/
+abbrev Consistent := Luqum.Lemmas.Visit.Consistent
+
+theorem consistent_nil (H : List String) : Consistent H [] := Luqum.Lemmas.Visit.consistent_nil H
+
+/-- the event recorded for an entry of the document-order enumeration -/
+def eventOf (H : List String) (x : Tree × List Tree × List Nat) : Event :=
+  { handler := dispatch H x.1.className, node := x.1, parents := x.2.1, path := x.2.2 }
+
+/-- **Every node is handled exactly once, in document order, with its true ancestors and path, by
+the handler uncached MRO dispatch designates** — whatever (consistent) cache the visitor starts
+with; and the cache it ends with is consistent again. -/
+theorem visitEvents_eq (H : List String) (c : Cache) (hc : Consistent H c) (parents : List Tree)
+    (path : List Nat) (t : Tree) :
+    (visitEvents H c parents path t).1 = (preorder parents path t).map (eventOf H)
+      ∧ Consistent H (visitEvents H c parents path t).2 :=
+  Luqum.Lemmas.Visit.visitEvents_eq H t c parents path hc
+
+/-- the same, componentwise (`Event` has no decidable equality; this is the form to test against) -/
+theorem visitEvents_components (H : List String) (c : Cache) (hc : Consistent H c)
+    (parents : List Tree) (path : List Nat) (t : Tree) :
+    (visitEvents H c parents path t).1.map (fun e => (e.handler, e.node, e.parents, e.path))
+      = (preorder parents path t).map (fun x => (dispatch H x.1.className, x.1, x.2.1, x.2.2)) := by
+  rw [(visitEvents_eq H c hc parents path t).1, List.map_map]; rfl
+
+/-- **The cache never changes behaviour**: a visitor instance that has already visited `t₁`
+(starting from a consistent cache, e.g. fresh) handles any later tree `t₂` exactly as a fresh
+visitor does. -/
+theorem visit_twice (H : List String) (c : Cache) (hc : Consistent H c)
+    (ps₁ ps₂ : List Tree) (p₁ p₂ : List Nat) (t₁ t₂ : Tree) :
+    (visitEvents H (visitEvents H c ps₁ p₁ t₁).2 ps₂ p₂ t₂).1 = (visitEvents H [] ps₂ p₂ t₂).1 := by
+  rw [(visitEvents_eq H _ (visitEvents_eq H c hc ps₁ p₁ t₁).2 ps₂ p₂ t₂).1,
+    (visitEvents_eq H [] (consistent_nil H) ps₂ p₂ t₂).1]
+
+/-- cached dispatch on a consistent cache is uncached dispatch; the cache stays consistent and
+only grows -/
+theorem dispatchCached_spec (H : List String) (c : Cache) (hc : Consistent H c) (cls : String) :
+    (dispatchCached H c cls).1 = dispatch H cls ∧ Consistent H (dispatchCached H c cls).2
+      ∧ ∀ e ∈ c, e ∈ (dispatchCached H c cls).2 :=
+  ⟨dispatchCached_fst hc cls, dispatchCached_snd hc cls, dispatchCached_mono H c cls⟩
+
+example :
+    ((visitEvents ["Term", "Item"] [] [] []
+        (.op .and [.term .word ['a'] {}, .term .phrase ['b'] {}] {})).1.map
+      (fun e => (e.handler, e.path)))
+      = [("Item", []), ("Term", [0]), ("Term", [1])] := by decide
+
+/-! ### 2. `preorder` is the document order with the true context -/
+
+/-- (a) **every node exactly once**: as many entries as nodes … -/
+theorem preorder_length (t : Tree) (parents : List Tree) (path : List Nat) :
+    ((preorder parents path t).map (·.1)).length = t.nodeCount := by
+  simp [Luqum.Lemmas.Visit.preorder_length]
+
+/-- (b) **true context**: the node of an entry is the node at its path; its ancestors are exactly
+the nodes at the proper prefixes of the path, root first. -/
+theorem preorder_context (t n : Tree) (anc : List Tree) (p : List Nat)
+    (h : (n, anc, p) ∈ preorder [] [] t) :
+    t.at? p = some n ∧ anc.length = p.length ∧
+      ∀ i (hi : i < anc.length), t.at? (p.take i) = some anc[i] := by
+  obtain ⟨q, anc', h1, h2, h3, h4, h5⟩ := preorder_ctx t [] [] _ h
+  simp at h1 h2; subst h1 h2
+  exact ⟨h3, h4, h5⟩
+
+/-- (b), generalised over the `parents` / `path` the traversal is started with (as
+`visit_iter(tree, context)` may be): the context is the given prefix followed by the true one. -/
+theorem preorder_context_prefix (t n : Tree) (parents anc : List Tree) (path p : List Nat)
+    (h : (n, anc, p) ∈ preorder parents path t) :
+    ∃ q anc', p = path ++ q ∧ anc = parents ++ anc' ∧ t.at? q = some n ∧ anc'.length = q.length ∧
+      ∀ i (hi : i < anc'.length), t.at? (q.take i) = some anc'[i] :=
+  preorder_ctx t parents path _ h
+
+/-- (c) **document order, no node twice**: the paths are strictly increasing in the lexicographic
+order on index paths (a prefix comes before its extensions: pre-order) … -/
+theorem preorder_paths_sorted (t : Tree) (parents : List Tree) (path : List Nat) :
+    List.Pairwise (· < ·) ((preorder parents path t).map (·.2.2)) := by
+  rw [List.pairwise_map]; exact preorder_sorted t parents path
+
+/-- … hence pairwise distinct: with (a), every node position is enumerated exactly once. -/
+theorem preorder_paths_nodup (t : Tree) (parents : List Tree) (path : List Nat) :
+    ((preorder parents path t).map (·.2.2)).Nodup := by
+  refine List.Pairwise.imp ?_ (preorder_paths_sorted t parents path)
+  intro a b hlt heq; subst heq; exact lex_irrefl a hlt
+
+example :
+    (preorder [] [] (.field ['f'] (.range (.term .word ['a'] {}) (.term .word ['b'] {}) true true {}) {})).map
+      (fun x => (x.1.className, x.2.1.map Tree.className, x.2.2))
+    = [("SearchField", [], []), ("Range", ["SearchField"], [0]),
+       ("Word", ["SearchField", "Range"], [0, 0]), ("Word", ["SearchField", "Range"], [0, 1])] := by
+  decide
+
+/-! ### 3. dispatch follows the MRO -/
+
+/-- **`dispatch H cls` is the first class of the MRO of `cls` that has a handler, else the generic
+handler.** -/
+theorem dispatch_spec (H : List String) (cls : String) :
+    (∃ pre c post, mroOf cls = pre ++ c :: post ∧ c ∈ H ∧ (∀ x ∈ pre, x ∉ H) ∧ dispatch H cls = c)
+    ∨ ((∀ c ∈ mroOf cls, c ∉ H) ∧ dispatch H cls = "<generic>") := by
+  unfold dispatch
+  cases hf : (mroOf cls).find? (fun c => H.contains c) with
+  | none =>
+    right
+    rw [List.find?_eq_none] at hf
+    exact ⟨fun c hc => by simpa using hf c hc, rfl⟩
+  | some c =>
+    left
+    rw [List.find?_eq_some_iff_append] at hf
+    obtain ⟨hc, pre, post, hm, hpre⟩ := hf
+    exact ⟨pre, c, post, hm, by simpa using hc, fun x hx => by simpa using hpre x hx, rfl⟩
+
+/-- a handler for the concrete class itself always wins -/
+theorem dispatch_self (H : List String) (t : Tree) (h : t.className ∈ H) :
+    dispatch H t.className = t.className := by
+  have hm : ∃ r, mroOf t.className = t.className :: r := by
+    match t with
+    | .term k _ _ => cases k <;> exact ⟨_, rfl⟩
+    | .group k _ _ => cases k <;> exact ⟨_, rfl⟩
+    | .approx k _ _ _ => cases k <;> exact ⟨_, rfl⟩
+    | .op k _ _ => cases k <;> exact ⟨_, rfl⟩
+    | .unary k _ _ => cases k <;> exact ⟨_, rfl⟩
+    | .orange k _ _ _ => cases k <;> exact ⟨_, rfl⟩
+    | .field .. => exact ⟨_, rfl⟩
+    | .range .. => exact ⟨_, rfl⟩
+    | .boost .. => exact ⟨_, rfl⟩
+    | .none _ => exact ⟨_, rfl⟩
+  obtain ⟨r, hr⟩ := hm
+  unfold dispatch
+  rw [hr]; simp [h]
+
+example : dispatch ["Item", "BaseOperation"] "AndOperation" = "BaseOperation" := by decide
+example : dispatch ["Term"] "AndOperation" = "<generic>" := by decide
+
+/-! ### 4. the default transformer is a deep copy through `clone_item` -/
+
+theorem copies_eq_map : ∀ xs : List Tree, Tree.copies xs = xs.map Tree.copy
+  | [] => rfl
+  | x :: r => by simp [Tree.copies, copies_eq_map r]
+
+/-- **`generic_visit` = `clone_item` + the copies of the children** -/
+theorem copy_eq_clone (t : Tree) :
+    t.cloneItem.setChildren (t.children.map Tree.copy) = some t.copy := by
+  cases t <;> simp [Tree.cloneItem, Tree.setChildren, Tree.children, Tree.copy, Lay.noName,
+    copies_eq_map]
+
+/-- the copy has the layout of the original, minus the attached name … -/
+theorem copy_lay (t : Tree) : t.copy.lay = t.lay.noName := by cases t <;> rfl
+
+/-- … the same class … -/
+theorem copy_className : ∀ t : Tree, t.copy.className = t.className
+  | .term k _ _ => by cases k <;> rfl
+  | .group k _ _ => by cases k <;> rfl
+  | .approx k _ _ _ => by cases k <;> rfl
+  | .op k _ _ => by cases k <;> rfl
+  | .unary k _ _ => by cases k <;> rfl
+  | .orange k _ _ _ => by cases k <;> rfl
+  | .field .. => rfl
+  | .range .. => rfl
+  | .boost .. => rfl
+  | .none _ => rfl
+
+/-- … and the copies of the children as children -/
+theorem copy_children (t : Tree) : t.copy.children = t.children.map Tree.copy := by
+  cases t <;> simp [Tree.copy, Tree.children, copies_eq_map]
+
+mutual
+private theorem content_copy : ∀ t : Tree, C09.content t.copy = C09.content t
+  | .term .. => rfl
+  | .none _ => rfl
+  | .field n e l => by simp [Tree.copy, C09.content, content_copy e]
+  | .group k e l => by simp [Tree.copy, C09.content, content_copy e]
+  | .approx k e n l => by simp [Tree.copy, C09.content, content_copy e]
+  | .boost e n l => by simp [Tree.copy, C09.content, content_copy e]
+  | .unary k e l => by simp [Tree.copy, C09.content, content_copy e]
+  | .orange k e i l => by simp [Tree.copy, C09.content, content_copy e]
+  | .range a b il ih l => by simp [Tree.copy, C09.content, content_copy a, content_copy b]
+  | .op k xs l => by simp [Tree.copy, C09.content, contents_copies xs]
+private theorem contents_copies : ∀ xs : List Tree, C09.contents (Tree.copies xs) = C09.contents xs
+  | [] => rfl
+  | x :: r => by simp [Tree.copies, C09.contents, content_copy x, contents_copies r]
+end
+
+/-- **the copy is equal to the original** (`==`) -/
+theorem copy_eqv (t : Tree) : t.copy.eqv t = true :=
+  (C09.eqv_iff_content _ _).2 (content_copy t)
+
+mutual
+private theorem full_copy (s : NumStyle) : ∀ t : Tree, t.copy.full s = t.full s
+  | .term .. => rfl
+  | .none _ => rfl
+  | .field n e l => by simp [Tree.copy, Tree.full, Lay.noName, full_copy s e]
+  | .group k e l => by simp [Tree.copy, Tree.full, Lay.noName, full_copy s e]
+  | .approx k e n l => by simp [Tree.copy, Tree.full, Lay.noName, full_copy s e]
+  | .boost e n l => by simp [Tree.copy, Tree.full, Lay.noName, full_copy s e]
+  | .unary k e l => by simp [Tree.copy, Tree.full, Lay.noName, full_copy s e]
+  | .orange k e i l => by simp [Tree.copy, Tree.full, Lay.noName, full_copy s e]
+  | .range a b il ih l => by simp [Tree.copy, Tree.full, Lay.noName, full_copy s a, full_copy s b]
+  | .op k xs l => by simp [Tree.copy, Tree.full, Lay.noName, fulls_copies s xs]
+private theorem fulls_copies (s : NumStyle) : ∀ xs : List Tree,
+    Tree.fulls s (Tree.copies xs) = Tree.fulls s xs
+  | [] => rfl
+  | x :: r => by simp [Tree.copies, Tree.fulls, full_copy s x, fulls_copies s r]
+end
+
+/-- **the copy prints like the original**, with and without head / tail, in both numeral styles -/
+theorem copy_full (t : Tree) (s : NumStyle) : t.copy.full s = t.full s ∧ t.copy.body s = t.body s := by
+  refine ⟨full_copy s t, ?_⟩
+  cases t <;> simp [Tree.copy, Tree.body, full_copy, fulls_copies]
+
+/-- **same shape, node by node**: at every path of the original the copy has the copy of the node
+there — so the same class, head, tail, pos and size (`copy_lay`, `copy_className`); only the
+attached name is dropped — and the copy has no other paths. -/
+theorem copy_at : ∀ (p : List Nat) (t : Tree), t.copy.at? p = (t.at? p).map Tree.copy
+  | [], t => rfl
+  | i :: r, t => by
+    simp only [Tree.at?, copy_children, List.getElem?_map]
+    cases t.children[i]? with
+    | none => rfl
+    | some c => exact copy_at r c
+
+theorem copy_at_some (t n : Tree) (p : List Nat) (h : t.at? p = some n) :
+    t.copy.at? p = some n.copy ∧ n.copy.lay = n.lay.noName ∧ n.copy.className = n.className := by
+  rw [copy_at, h]; exact ⟨rfl, copy_lay n, copy_className n⟩
+
+theorem Lay.noName_noName (l : Lay) : l.noName.noName = l.noName := rfl
+
+mutual
+/-- **copying a copy changes nothing** -/
+theorem copy_copy : ∀ t : Tree, t.copy.copy = t.copy
+  | .term .. => rfl
+  | .none _ => rfl
+  | .field n e l => by simp [Tree.copy, Lay.noName, copy_copy e]
+  | .group k e l => by simp [Tree.copy, Lay.noName, copy_copy e]
+  | .approx k e n l => by simp [Tree.copy, Lay.noName, copy_copy e]
+  | .boost e n l => by simp [Tree.copy, Lay.noName, copy_copy e]
+  | .unary k e l => by simp [Tree.copy, Lay.noName, copy_copy e]
+  | .orange k e i l => by simp [Tree.copy, Lay.noName, copy_copy e]
+  | .range a b il ih l => by simp [Tree.copy, Lay.noName, copy_copy a, copy_copy b]
+  | .op k xs l => by simp [Tree.copy, Lay.noName, copies_copies xs]
+theorem copies_copies : ∀ xs : List Tree, Tree.copies (Tree.copies xs) = Tree.copies xs
+  | [] => rfl
+  | x :: r => by simp [Tree.copies, copy_copy x, copies_copies r]
+end
+
+mutual
+/-- a tree without attached names is its own copy (the copy is *structurally* the original) -/
+def noNames : Tree → Bool
+  | .term _ _ l => l.name.isNone
+  | .none l => l.name.isNone
+  | .field _ e l => l.name.isNone && noNames e
+  | .group _ e l => l.name.isNone && noNames e
+  | .approx _ e _ l => l.name.isNone && noNames e
+  | .boost e _ l => l.name.isNone && noNames e
+  | .unary _ e l => l.name.isNone && noNames e
+  | .orange _ e _ l => l.name.isNone && noNames e
+  | .range a b _ _ l => l.name.isNone && noNames a && noNames b
+  | .op _ xs l => l.name.isNone && noNamesList xs
+def noNamesList : List Tree → Bool
+  | [] => true
+  | x :: r => noNames x && noNamesList r
+end
+
+private theorem noName_of_isNone {l : Lay} (h : l.name.isNone = true) : l.noName = l := by
+  cases l; simp_all [Lay.noName]
+
+mutual
+theorem copy_eq_self_iff : ∀ t : Tree, t.copy = t ↔ noNames t = true
+  | .term k v l => by
+    simp only [Tree.copy, noNames, Tree.term.injEq, true_and]
+    exact ⟨fun h => by rw [← h]; rfl, noName_of_isNone⟩
+  | .none l => by
+    simp only [Tree.copy, noNames, Tree.none.injEq]
+    exact ⟨fun h => by rw [← h]; rfl, noName_of_isNone⟩
+  | .field n e l => by
+    simp only [Tree.copy, noNames, Tree.field.injEq, true_and, copy_eq_self_iff e, Bool.and_eq_true]
+    exact ⟨fun h => ⟨by rw [← h.2]; rfl, h.1⟩, fun h => ⟨h.2, noName_of_isNone h.1⟩⟩
+  | .group k e l => by
+    simp only [Tree.copy, noNames, Tree.group.injEq, true_and, copy_eq_self_iff e, Bool.and_eq_true]
+    exact ⟨fun h => ⟨by rw [← h.2]; rfl, h.1⟩, fun h => ⟨h.2, noName_of_isNone h.1⟩⟩
+  | .approx k e n l => by
+    simp only [Tree.copy, noNames, Tree.approx.injEq, true_and, copy_eq_self_iff e, Bool.and_eq_true]
+    exact ⟨fun h => ⟨by rw [← h.2]; rfl, h.1⟩, fun h => ⟨h.2, noName_of_isNone h.1⟩⟩
+  | .boost e n l => by
+    simp only [Tree.copy, noNames, Tree.boost.injEq, true_and, copy_eq_self_iff e, Bool.and_eq_true]
+    exact ⟨fun h => ⟨by rw [← h.2]; rfl, h.1⟩, fun h => ⟨h.2, noName_of_isNone h.1⟩⟩
+  | .unary k e l => by
+    simp only [Tree.copy, noNames, Tree.unary.injEq, true_and, copy_eq_self_iff e, Bool.and_eq_true]
+    exact ⟨fun h => ⟨by rw [← h.2]; rfl, h.1⟩, fun h => ⟨h.2, noName_of_isNone h.1⟩⟩
+  | .orange k e i l => by
+    simp only [Tree.copy, noNames, Tree.orange.injEq, true_and, copy_eq_self_iff e, Bool.and_eq_true]
+    exact ⟨fun h => ⟨by rw [← h.2]; rfl, h.1⟩, fun h => ⟨h.2, noName_of_isNone h.1⟩⟩
+  | .range a b il ih l => by
+    simp only [Tree.copy, noNames, Tree.range.injEq, true_and, copy_eq_self_iff a,
+      copy_eq_self_iff b, Bool.and_eq_true]
+    exact ⟨fun h => ⟨⟨by rw [← h.2.2]; rfl, h.1⟩, h.2.1⟩,
+      fun h => ⟨h.1.2, h.2, noName_of_isNone h.1.1⟩⟩
+  | .op k xs l => by
+    simp only [Tree.copy, noNames, Tree.op.injEq, true_and, copies_eq_self_iff xs, Bool.and_eq_true]
+    exact ⟨fun h => ⟨by rw [← h.2]; rfl, h.1⟩, fun h => ⟨h.2, noName_of_isNone h.1⟩⟩
+theorem copies_eq_self_iff : ∀ xs : List Tree, Tree.copies xs = xs ↔ noNamesList xs = true
+  | [] => by simp [Tree.copies, noNamesList]
+  | x :: r => by
+    simp [Tree.copies, noNamesList, copy_eq_self_iff x, copies_eq_self_iff r]
+end
+
+example :
+    (Tree.op .or [.term .word ['a'] { tail := [' '], name := some ['x'] },
+                  .term .word ['b'] { head := [' '], pos := some 5 }] { name := some ['o'] }).copy
+      = .op .or [.term .word ['a'] { tail := [' '] }, .term .word ['b'] { head := [' '], pos := some 5 }] {} :=
+  rfl
+
 end Luqum.Props.C08
